@@ -66,9 +66,18 @@ func c16RawClientConfig(rnd *[handshake.RandomBytesLength]byte, certs []tls.Cert
 // parked goroutines simply stay until the test process ends.
 func c16Retire(l *Listener) {}
 
-func c16WaitRegistered(l *Listener, rnd [handshake.RandomBytesLength]byte, d time.Duration) bool {
+// returned (optional): closed when the Accept in question has returned — there is nothing to wait for any more
+// (a tree on which an Accept is refused at once must not cost the full wait every time).
+func c16WaitRegistered(l *Listener, rnd [handshake.RandomBytesLength]byte, d time.Duration, returned ...<-chan struct{}) bool {
 	deadline := time.Now().Add(d)
 	for time.Now().Before(deadline) {
+		for _, ch := range returned {
+			select {
+			case <-ch:
+				return false
+			default:
+			}
+		}
 		l.connToCertMutex.Lock()
 		c := l.connToCert[rnd] != nil
 		l.connToCertMutex.Unlock()
@@ -104,11 +113,13 @@ func c16ListenerAuth(out *vlib.Out, r *vlib.Rand, rounds int) {
 		ctx, cancel := context.WithTimeout(context.Background(), 15*time.Second)
 		defer cancel()
 		resCh := make(chan c16AccRes, 1)
+		returned := make(chan struct{})
 		go func() {
 			c, err := l.acceptDTLSConn(ctx, &Config{PSK: c16Secret(a)})
 			resCh <- c16AccRes{c, err}
+			close(returned)
 		}()
-		if !c16WaitRegistered(l, ca.rnd, 10*time.Second) {
+		if !c16WaitRegistered(l, ca.rnd, 10*time.Second, returned) {
 			cancel()
 			<-resCh
 			return false, nil, "accept-never-registered"
@@ -331,14 +342,16 @@ func c16RealScenarios(out *vlib.Out, r *vlib.Rand, rounds int) {
 		if kind == "after-cancelled-accept" {
 			ctx, cancel := context.WithCancel(context.Background())
 			done := make(chan error, 1)
+			returned := make(chan struct{})
 			go func() {
 				c, err := l.AcceptWithContext(ctx, &Config{PSK: c16Secret(secret), SCTP: ServerAccept})
 				if err == nil {
 					c.Close()
 				}
 				done <- err
+				close(returned)
 			}()
-			c16WaitRegistered(l, rnd, 10*time.Second)
+			c16WaitRegistered(l, rnd, 10*time.Second, returned)
 			cancel()
 			select {
 			case err := <-done:
@@ -356,8 +369,10 @@ func c16RealScenarios(out *vlib.Out, r *vlib.Rand, rounds int) {
 			err error
 		}
 		accCh := make(chan accRes, 1)
+		accReturned := make(chan struct{})
 		go func() {
 			c, err := l.AcceptWithContext(ctx, &Config{PSK: c16Secret(secret), SCTP: ServerAccept})
+			close(accReturned)
 			if err != nil {
 				accCh <- accRes{"", err}
 				return
@@ -372,7 +387,14 @@ func c16RealScenarios(out *vlib.Out, r *vlib.Rand, rounds int) {
 			}
 			accCh <- accRes{string(buf[:n]), err}
 		}()
-		if !c16WaitRegistered(l, rnd, 10*time.Second) {
+		if !c16WaitRegistered(l, rnd, 10*time.Second, accReturned) {
+			select {
+			case res := <-accCh:
+				if res.err != nil {
+					return "the Accept returned at once: " + res.err.Error(), nil
+				}
+			default:
+			}
 			return "the Accept did not register within 10 s", nil
 		}
 		switch kind {
